@@ -794,7 +794,10 @@ Proof.
   destruct (flush_spec _ _ _ H1) as [A _]; [discriminate|].
   apply bind_inv in H. destruct H as [[s2 [H2 H]]|[H2 Hn]].
   - destruct (connection_spec _ _ _ H2) as [B _].
-    destruct (keeps_load_row _ _ _ _ H) as [C [D E]]. split; auto.
+    assert (KL : keeps (load_row_attached o)).
+    { intros sa ra sa' Ha. unfold load_row_attached in Ha. destruct (oatt (objs sa o)); [apply (keeps_load_row _ _ _ _ Ha)|].
+      inversion Ha; subst. repeat split; auto; discriminate. }
+    destruct (KL _ _ _ H) as [C [D E]]. split; auto.
     rewrite C, D. eapply out1_then_ab; eauto.
   - destruct (connection_spec _ _ _ H2) as [B C]. split; auto.
     eapply out1_then_ab; eauto.
